@@ -2,6 +2,22 @@
 // REAL galaxy-ipam scheduler plugin in-process on fake clientsets behind call-counting / fault-injecting decorators
 // and harness-controlled listers, executes op lines (the protocol of gxdrv_plugin) against it, prints canonical
 // digests, generates random and small-scope exhaustive histories and compares everything with the Lean model.
+//
+// API for property commands built on this package (C02, C03, C06, C07, C10 add monitors, not models):
+//
+//	w, err := plugin.NewWorld(conf, rng)          // the real plugin on a fresh fake cluster
+//	final, result := w.Apply("bind ns1 a-0 1 n1 ? ? 0 0") // one op line; `?` choices are observed and filled in
+//	w.Digest()                                    // canonical state digest (= `dump` answer of gxdrv_plugin)
+//	w.IPAMDump(), w.TruthPods(), w.LiveBound(), w.Prov.Log, w.Events, w.LastOp   // observation for monitors
+//	conf, script := plugin.GenHistory(rng, params)         // online generator (Appendix D), params see GenParams
+//	t, w, err := plugin.Execute(conf, rng, script, monitor, maxOps) // run + dump after every op + monitor
+//	d, err := plugin.Compare(e, t)                // pipe the transcript to gxdrv_plugin, first disagreement
+//	b := plugin.RunCorrespondence(e, "Cxx", n, params, monitor); b.Fill(report)  // n histories in parallel
+//	x := plugin.Exhaustive(e, "Cxx", monitor, depth, seconds)                    // small-scope BFS
+//	report := plugin.RunProperty(e, "Cxx", monitor) // corpus + 4 generator profiles (+ exhaustive when thorough)
+//
+// A Monitor is `func(w *World, step int) []hx.Violation`, evaluated after every op on the REAL state; it may keep
+// state in w.Mon.  Op-line syntax: see lean/Galaxy/Drv/Plugin.lean.
 package plugin
 
 import (
